@@ -20,6 +20,7 @@ import (
 	"strings"
 	"sync"
 	"sync/atomic"
+	"syscall"
 	"time"
 
 	"github.com/spf13/afero"
@@ -126,11 +127,56 @@ func newWorld(specs []treeSpec) *world {
 			_ = afero.WriteFile(w.inner, root+"/.snapshot/old.txt", []byte(fmt.Sprintf("snapshot of %d", i)), 0o644)
 			_ = afero.WriteFile(w.inner, root+"/lib/ignore-me.txt", []byte(fmt.Sprintf("ignore %d", i)), 0o644)
 			_ = afero.WriteFile(w.inner, root+"/lib/sub/.gitignore", []byte("*.o\n"), 0o644)
+			w.richFiles(root, i, rng)
 		}
 		w.versions = append(w.versions, w.readTree(root))
 	}
 	w.dirtyDest(destDir)
 	return w
+}
+
+// zipBytes builds a small real archive (an archive stored INSIDE a version is just a file of that version).
+func zipBytes(files map[string][]byte) []byte {
+	var buf bytes.Buffer
+	zw := zip.NewWriter(&buf)
+	names := make([]string, 0, len(files))
+	for n := range files {
+		names = append(names, n)
+	}
+	sort.Strings(names)
+	for _, n := range names {
+		f, _ := zw.Create(n)
+		_, _ = f.Write(files[n])
+	}
+	_ = zw.Close()
+	return buf.Bytes()
+}
+
+// richFiles: what real trees contain — archives of several kinds (also nested, also under a misleading extension), an
+// empty file, a larger compressible file, deep paths, names with spaces, several dots and non-ASCII characters.
+func (w *world) richFiles(root string, i int, rng *rand.Rand) {
+	tag := []byte(fmt.Sprintf("version %d", i))
+	inner := zipBytes(map[string][]byte{"deep/inside.txt": tag, "deep/more/x.bin": {1, 2, 3}})
+	jar := zipBytes(map[string][]byte{"META-INF/MANIFEST.MF": []byte("Manifest-Version: 1.0\n"), "com/example/App.class": tag})
+	bundle := zipBytes(map[string][]byte{"inner/nested.zip": inner, "readme.md": tag, "assets/app.jar": jar})
+	big := bytes.Repeat([]byte(fmt.Sprintf("line of version %d, compressible text\n", i)), 3000) // ~100 KiB
+	for name, content := range map[string][]byte{
+		"lib/app.jar":                        jar,
+		"dist/bundle.zip":                    bundle,
+		"dist/logs.gz":                       inner, // a zip archive under another extension
+		"dist/empty.zip":                     {},
+		"empty.dat":                          {},
+		"big/report.log":                     big,
+		"deep/a/b/c/d/e/f/g/leaf.txt":        tag,
+		"name with spaces/read me first.txt": tag,
+		"v1.2.3/.config.d/file.tar.gz.txt":   tag,
+		"intl/r\u00e9sum\u00e9 \u00fc\u00f1\u00ee\u00e7\u00f8d\u00e9.txt": tag,
+	} {
+		p := root + "/" + name
+		_ = w.inner.MkdirAll(filepath.Dir(p), 0o755)
+		_ = afero.WriteFile(w.inner, p, content, 0o644)
+	}
+	_ = w.inner.MkdirAll(root+"/empty-dir/sub", 0o755)
 }
 
 // dirtyDest: a destination is rarely empty — it holds files that belong to no version (some of them with names that
@@ -326,6 +372,14 @@ func (c *client) hook(op *shim.Op) error {
 			return &shim.ShortWriteError{N: f.shortN(op.N)}
 		}
 		return errInjected
+	case "closelost":
+		if op.Name == "f.Close" {
+			if fh, e := c.w.inner.OpenFile(op.Path, os.O_WRONLY|os.O_TRUNC, 0o644); e == nil {
+				_ = fh.Close()
+			}
+			return &os.PathError{Op: "close", Path: op.Path, Err: syscall.ENOSPC}
+		}
+		return nil
 	case "shortnil", "silent":
 		if op.Name == "f.Write" {
 			c.w.strict.arm(&writeTrick{path: op.Path, keep: f.shortN(op.N), lie: f.Kind == "silent"})
